@@ -390,4 +390,35 @@ def rule_h(ctx: Ctx) -> None:
                 'among the arguments.')
 
 
-RULES = [rule_a, rule_b, rule_c, rule_d, rule_e, rule_f, rule_g, rule_h]
+def rule_i(ctx: Ctx) -> None:
+    """Moving a declaration into an included document of the same namespace changes nothing.  `notQName="##defined"` excludes the names
+    for which a global declaration exists *in the schema*: the refusal may depend on whether the name is in the global map of this
+    schema set, not on which schema document holds the declaration.  Sibling pair: element wildcard and attribute wildcard."""
+    rule = 'C09.i'
+    n = 0
+    for cq, table in (('xmlschema.validators.wildcards.Xsd11AnyElement', 'self.maps.elements'), ('xmlschema.validators.wildcards.Xsd11AnyAttribute', 'self.maps.attributes')):
+        c = ctx.idx.cls(cq)
+        f = c.methods.get('is_matching')
+        if f is None:
+            raise AnalysisError(f'missing anchor {cq}.is_matching')
+        ctx.analysed(f.qualname)
+        tests = [t for t in walk_no_nested(f.node) if isinstance(t, ast.If) and "'##defined' in self.not_qname" in text(t.test)]
+        if len(tests) != 1:
+            raise AnalysisError(f'UNRECOGNISED-IDIOM {rule}: the ##defined test of {f.qualname}')
+        t = tests[0]
+        n += 1
+        looks = table in text(t.test) or any(table in text(x) for s_ in t.body for x in ast.walk(s_))
+        refuses = any(isinstance(x, ast.Return) and isinstance(x.value, ast.Constant) and x.value.value is False for s_ in t.body for x in ast.walk(s_))
+        by_doc = [x for s_ in [t.test] + t.body for x in ast.walk(s_) if isinstance(x, ast.Compare) and len(x.ops) == 1 and isinstance(x.ops[0], (ast.Is, ast.IsNot, ast.Eq, ast.NotEq))
+                  and 'self.schema' in (text(x.left), text(x.comparators[0]))]
+        ok = looks and refuses and not by_doc
+        ctx.ob(rule, f'{c.name}.is_matching: ##defined refuses a name of the global map `{table}` whatever document declares it', f.loc(t), ok,
+               '' if ok else (f'`{text(by_doc[0])}` makes the refusal depend on the schema document that holds the declaration: with the global declaration moved into an included '
+                              'document of the same namespace the wildcard admits the name, the one-document schema rejects the instance and the split one accepts it'
+                              if by_doc else 'no refusal under the ##defined test'), key=f'{c.name}.is_matching|defined-schema-wide')
+    ctx.floor(rule, '##defined tests of the XSD 1.1 wildcards', n, 2)
+    ctx.explain('C09.i: in the is_matching of both XSD 1.1 wildcards the block under `\'##defined\' in self.not_qname` consults the global map, returns False, and contains no '
+                'comparison with `self.schema` (document identity); a comparison of `.maps` with `self.maps` (schema-set identity) is allowed.')
+
+
+RULES = [rule_a, rule_b, rule_c, rule_d, rule_e, rule_f, rule_g, rule_h, rule_i]
